@@ -220,6 +220,12 @@ def roundtrip_part(ctx, binary):
             if line.strip():
                 ops.append("rt " + tree_op(json.loads(line)))
     ctx.notes["trees_enumerated_by_tlc"] = len(ops)
+    # every NUL-free byte value inside a string value, embedded, doubled and as a map key (the enumerated alphabet
+    # has 8 symbols; this family covers all control characters and all non-ASCII bytes)
+    for b in range(1, 256):
+        ops.append("rt S " + hexs([b]))
+        ops.append("rt S " + hexs([0x61, b, 0x62, b]))
+        ops.append("rt M 1 " + hexs([0x6b, b]) + " S " + hexs([b, 0x7a]))
     for kind in "AMX":                       # the parameterised family: chains of depth 60 (nested projection) and 1000 (flat)
         ops.append("rt " + deep_tree(kind, 60))
         ops.append("rtdeep " + "".join(kind if kind != "X" else "AM"[i % 2] for i in range(1000)))
